@@ -1,4 +1,5 @@
 import LyModel.Valid.SchemaExt
+import LyModel.Generated.ValidConsts
 /-!
 # Validation model, common part: options, errors, the change events of the validation diff, error paths
 
@@ -20,8 +21,11 @@ structure VOpts where
   operational : Bool := false
   deriving Repr, BEq, DecidableEq, Inhabited
 
+def hasBit (n bit : Nat) : Bool := n / bit % 2 == 1
+
 def VOpts.ofNat (n : Nat) : VOpts :=
-  { noState := n % 2 == 1, present := n / 2 % 2 == 1, multiError := n / 4 % 2 == 1, operational := n / 8 % 2 == 1 }
+  { noState := hasBit n Generated.LYD_VALIDATE_NO_STATE, present := hasBit n Generated.LYD_VALIDATE_PRESENT,
+    multiError := hasBit n Generated.LYD_VALIDATE_MULTI_ERROR, operational := hasBit n Generated.LYD_VALIDATE_OPERATIONAL }
 
 /-- closed enum of the validation errors (`LY_VCODE_*` of ly_common.h; all carry `LYVE_DATA`) -/
 inductive EKind where
